@@ -112,6 +112,8 @@ def rule_shape_blocks(level=1):
             "DUP1 SUB", "DUP1 XOR", "DUP2 SUB ISZERO", "DUP2 XOR ISZERO", "SUB ISZERO", "XOR ISZERO", "SUB ISZERO ISZERO", "DUP2 DUP2 SUB ISZERO SWAP2 EQ ADD",
             "ISZERO ISZERO ISZERO ISZERO", "DUP1 ISZERO ISZERO SWAP1 ISZERO ADD", "PUSH 0 EQ", "PUSH 0 SWAP1 EQ", "PUSH 0 EQ ISZERO", "PUSH 1 EQ", "PUSH 1 AND PUSH 1 EQ",
             "NOT NOT ADD", "DUP1 NOT NOT ADD", "NOT PUSH 0 NOT AND", "PUSH 0 NOT AND", "PUSH 0 NOT OR", "PUSH 0 NOT XOR"]
+    # the same shapes with the operands arriving in the other order
+    out += ["SWAP1 " + b for b in list(out) if len(b.split()) >= 2 and not b.startswith(("DUP", "SWAP"))][::2]
     if level > 1:
         extra = []
         for a in out[:len(out)]:
